@@ -6,7 +6,14 @@ import (
 )
 
 type PathMatcher interface {
+	// tail is a selected node or inside a selected node
 	PathMatches(base *Path, tail *Path) bool
+
+	// tail is a parent of a selected node
+	PathLeadsTo(base *Path, tail *Path) bool
+
+	// tail is a selected node
+	PathMatchesExactly(base *Path, tail *Path) bool
 }
 
 type PathMatchExpression struct {
@@ -171,6 +178,7 @@ func (e *PathMatchExpression) PathMatches(base *Path, candidate *Path) bool {
 	if len(e.paths) == 0 {
 		return true
 	}
+	n := candidate.Len() - base.Len()
 	for _, path := range e.paths {
 
 		// NOTE: empty selector means select everything
@@ -178,20 +186,64 @@ func (e *PathMatchExpression) PathMatches(base *Path, candidate *Path) bool {
 			return true
 		}
 
-		if e.match(path, base, candidate) {
+		if n >= len(path) && e.match(path, base, candidate) {
 			return true
 		}
 	}
 	return false
 }
 
+// PathLeadsTo returns true if candidate, when you subtract the base, is a proper
+// parent of a path selector: the node is not selected itself but a selected node
+// is somewhere below it.
+//
+//	base      : some/path
+//	candidate : some/path=key/more
+//	slice     :               more/path
+func (e *PathMatchExpression) PathLeadsTo(base *Path, candidate *Path) bool {
+	n := candidate.Len() - base.Len()
+	for _, path := range e.paths {
+		if n < len(path) && e.match(path, base, candidate) {
+			return true
+		}
+	}
+	return false
+}
+
+// PathMatchesExactly returns true if candidate, when you subtract the base, is a
+// path selector: the node is selected itself, not merely inside a selected node.
+func (e *PathMatchExpression) PathMatchesExactly(base *Path, candidate *Path) bool {
+	// NOTE: empty selector means select everything
+	if len(e.paths) == 0 {
+		return true
+	}
+	n := candidate.Len() - base.Len()
+	for _, path := range e.paths {
+		if len(path) == 0 {
+			return true
+		}
+		if n == len(path) && e.match(path, base, candidate) {
+			return true
+		}
+	}
+	return false
+}
+
+// match compares the segments candidate and selector have in common
 func (e *PathMatchExpression) match(segs segments, base *Path, candidate *Path) bool {
 	p := candidate
 	j := (candidate.Len() - base.Len()) - 1
+	i := len(segs) - 1
+
+	// a candidate that is shorter than the selector can only be compared to the
+	// leading segments of the selector
+	if i > j {
+		i = j
+	}
 
 	// start navigation at the end of the tail as it would likely be more efficient the longer
 	// the path
-	for i := len(segs) - 1; i >= 0; {
+	for i >= 0 {
 
 		// we keep peeling back slice as long as it continues to match candidate as we
 		// peel that back as well.
